@@ -228,8 +228,12 @@ def stage_harness(pid, spec, tier, seed, log, extra_env=None):
     env = dict(ENV, VERIF_SEED=str(seed), VERIF_TIER=tier, HX_OUT=WORK, RUST_BACKTRACE="0", TMPDIR=tmpd)
     env.update(extra_env or {})
     binp = os.path.join(HARNESS, "target", "release", spec["harness"])
-    rc, out, dt = sh([binp] + spec.get("harness_args", []), cwd=ROOT,
-                     timeout=spec.get("harness_timeout", {"quick": 1500, "thorough": 7200})[tier], env=env)
+    nshards = spec.get("thorough_shards", 0) if (tier == "thorough" and not extra_env) else 0
+    if nshards > 1:
+        rc, out, dt = run_sharded(pid, spec, binp, env, nshards, seed, outdir)
+    else:
+        rc, out, dt = sh([binp] + spec.get("harness_args", []), cwd=ROOT,
+                         timeout=spec.get("harness_timeout", {"quick": 1500, "thorough": 7200})[tier], env=env)
     log.append(f"[S3] {binp} rc={rc} {dt:.1f}s\n{out[-4000:]}")
     shutil.rmtree(tmpd, ignore_errors=True)
     for stale in glob.glob(os.path.join(outdir, "scratch-*")):
@@ -239,6 +243,56 @@ def stage_harness(pid, spec, tier, seed, log, extra_env=None):
     if os.path.exists(sp):
         summary = json.load(open(sp))
     return rc, out, summary
+
+
+def run_sharded(pid, spec, binp, env, nshards, seed, outdir):
+    """Thorough tier of a harness that drives real nodes: every node leaves threads and caches behind
+    for the life of the process, so the work is split over `nshards` processes (HX_SHARD / HX_NSHARDS,
+    a different seed each; the harness sizes its loops with hx_common::shard_share) and merged."""
+    t0 = time.time()
+    sdir = os.path.join(outdir, "shards")
+    shutil.rmtree(sdir, ignore_errors=True)
+    par = spec.get("shard_par", 3)
+    def one(i):
+        d = os.path.join(sdir, f"{i:02d}")
+        os.makedirs(os.path.join(d, "tmp"), exist_ok=True)
+        e = dict(env, HX_SHARD=str(i), HX_NSHARDS=str(nshards), HX_OUT=d, TMPDIR=os.path.join(d, "tmp"),
+                 VERIF_SEED=str((seed * 1000003 + i + 1) % (1 << 63)))
+        rc, out, dt = sh([binp] + spec.get("harness_args", []), cwd=ROOT,
+                         timeout=spec.get("harness_timeout", {"quick": 1500, "thorough": 7200})["thorough"], env=e)
+        shutil.rmtree(os.path.join(d, "tmp"), ignore_errors=True)
+        return i, rc, out
+    with ThreadPoolExecutor(max_workers=par) as ex:
+        res = list(ex.map(one, range(nshards)))
+    merged = {"property": pid, "seed": seed, "shards": nshards, "evaluations": 0, "distinct_nontrivial": 0,
+              "rule": None, "distribution": {}, "samples": [], "impl_violations": []}
+    rc_all, outs = 0, []
+    for i, rc, out in res:
+        outs.append(f"[shard {i}] rc={rc} {out[-600:]}")
+        d = os.path.join(sdir, f"{i:02d}", pid)
+        sp = os.path.join(d, "summary.json")
+        if rc != 0 or not os.path.exists(sp):
+            rc_all = rc or 3
+            continue
+        sm = json.load(open(sp))
+        merged["evaluations"] += sm.get("evaluations", 0)
+        merged["distinct_nontrivial"] += sm.get("distinct_nontrivial", 0)
+        merged["rule"] = sm.get("rule")
+        for k, v in (sm.get("distribution") or {}).items():
+            if isinstance(v, (int, float)):
+                merged["distribution"][k] = merged["distribution"].get(k, 0) + v
+        merged["samples"] += (sm.get("samples") or [])[: max(0, 6 - len(merged["samples"]))]
+        for v in sm.get("impl_violations") or []:
+            v = dict(v); v["shard"] = i; v["shard_env"] = f"HX_SHARD={i} HX_NSHARDS={nshards} VERIF_SEED={(seed * 1000003 + i + 1) % (1 << 63)}"
+            merged["impl_violations"].append(v)
+        for k in sm:
+            if k not in merged:
+                merged[k] = sm[k]
+        for f in glob.glob(os.path.join(d, "cases_*")):
+            os.replace(f, os.path.join(outdir, "cases_s%02d_%s" % (i, os.path.basename(f)[len("cases_"):])))
+    shutil.rmtree(sdir, ignore_errors=True)
+    json.dump(merged, open(os.path.join(outdir, "summary.json"), "w"), indent=1)
+    return rc_all, "\n".join(outs), time.time() - t0
 
 
 def run_coqc_cases(path):
